@@ -466,8 +466,35 @@ def concrete_hamiltonian(inst):
         M, Mi = inst["basis"]["M"], inst["basis"]["Mi"]
         allterms = {n: mmul(M, mmul(m, Mi)) for n, m in allterms.items()}
     out = {}
+    symbolic = vt == "sympy" and inst.get("symbolic_consts") and not inst.get("basis") and not inst.get("h0_extra")
+    if symbolic:
+        import sympy
+
+        # SYMBOLIC constants: every distinct unperturbed level is a real symbol (equal levels share it), and
+        # the first perturbation term carries a symbolic coupling g.  The truth stays the numeric instance;
+        # returned expressions are evaluated at the same values before they are reduced (inst["_esubs"]).
+        esubs = {}
+        levels = sorted({epair(e) for e in inst["E"]}, key=str)
+        lsym = {}
+        for q, lv in enumerate(levels):
+            if lv[1] != 0:
+                symbolic = False
+                break
+            sy = sympy.Symbol(f"e{q}", real=True)
+            lsym[lv] = sy
+            esubs[sy] = sympy.Rational(lv[0].numerator, lv[0].denominator)
+    if symbolic:
+        gval = Fraction(3, 2)
+        g = sympy.Symbol("g", real=True)
+        esubs[g] = sympy.Rational(3, 2)
+        first = sorted(n for n in allterms if sum(n) > 0)[0]
+        inst["_esubs"] = esubs
     for n, m in allterms.items():
-        if vt == "sympy":
+        if symbolic and n == (0,) * k:
+            out[n] = sympy.diag(*[lsym[epair(e)] for e in inst["E"]])
+        elif symbolic and n == first:
+            out[n] = to_sympy([[(x / gval, y / gval) for (x, y) in row] for row in m]) * g
+        elif vt == "sympy":
             out[n] = to_sympy(m)
         elif vt == "numpy":
             out[n] = int_cast(to_numpy(m), inst)
@@ -673,7 +700,7 @@ class NotRepresentable(Exception):
     """A float output is not within rounding distance of the exact ring."""
 
 
-def block_to_res(val, shape, p):
+def block_to_res(val, shape, p, subs=None):
     """One returned element -> residues, handling the zero / one sentinels."""
     import sympy
     from pymablock.series import one, zero
@@ -690,6 +717,8 @@ def block_to_res(val, shape, p):
     if isinstance(val, sympy.MatrixBase):
         if val.shape != (r, c):
             raise ValueError(f"block shape {val.shape} != {(r, c)}")
+        if subs:
+            val = val.subs(subs)
         return [[common.red_sympy(val[i, j], p) for j in range(c)] for i in range(r)], "val"
     val = np.asarray(val)
     if val.shape != (r, c):
@@ -697,7 +726,7 @@ def block_to_res(val, shape, p):
     return [[red_value(val[i, j], p) for j in range(c)] for i in range(r)], "val"
 
 
-def assemble(series, n, sizes, p):
+def assemble(series, n, sizes, p, subs=None):
     """Dense d x d residue matrix of all blocks of `series` at multi-order n."""
     nb = len(sizes)
     offs = np.concatenate(([0], np.cumsum(sizes)))
@@ -707,7 +736,7 @@ def assemble(series, n, sizes, p):
     for i in range(nb):
         for j in range(nb):
             val = series[(i, j, *n)]
-            blk, tag = block_to_res(val, (sizes[i], sizes[j]), p)
+            blk, tag = block_to_res(val, (sizes[i], sizes[j]), p, subs)
             tags[(i, j)] = tag
             for a in range(sizes[i]):
                 for b in range(sizes[j]):
@@ -760,9 +789,10 @@ def make_session(inst, sid, p, outputs=None, spectrum=1):
     out = []
     for n in ords:
         ln = lib_order(inst, n)
-        ht, _ = assemble(Ht, ln, sizes, p)
-        u, _ = assemble(U, ln, sizes, p)
-        ud, _ = assemble(Ud, ln, sizes, p)
+        sb = inst.get("_esubs")
+        ht, _ = assemble(Ht, ln, sizes, p, sb)
+        u, _ = assemble(U, ln, sizes, p, sb)
+        ud, _ = assemble(Ud, ln, sizes, p, sb)
         out.append({"Ht": ht, "U": u, "Ud": ud})
     sess = dict(sid=sid, k=k, N=N, ords=[list(n) for n in ords],
                 H=truth_series(inst, p), out=out, spectrum=spectrum,
@@ -785,6 +815,7 @@ def describe(inst):
         k=inst["k"], N=inst["N"], vtype=inst["vtype"], fdkind=inst["fdkind"],
         fd_blocks=inst["fd_blocks"], hermitian=inst.get("hermitian", True),
         format=inst.get("format", "dict"), symnames=inst.get("symnames"), int_dtype=bool(inst.get("int_dtype")),
+        symbolic_consts=bool(inst.get("symbolic_consts")),
         masks={str(b): m.astype(int).tolist() for b, m in inst["masks"].items()},
         terms={",".join(map(str, n)): [[[f(x), f(y)] for (x, y) in row] for row in m]
                for n, m in inst["terms"].items()},
@@ -805,6 +836,7 @@ def from_description(desc):
         k=desc["k"], N=desc["N"], vtype=desc["vtype"], fdkind=desc["fdkind"],
         fd_blocks=desc["fd_blocks"], hermitian=desc.get("hermitian", True),
         format=desc.get("format", "dict"), symnames=desc.get("symnames"), int_dtype=desc.get("int_dtype", False),
+        symbolic_consts=desc.get("symbolic_consts", False),
         masks={int(b): np.array(m, dtype=bool) for b, m in desc["masks"].items()},
         terms={tuple(int(x) for x in n.split(",")): [[(g(x), g(y)) for (x, y) in row] for row in m]
                for n, m in desc["terms"].items()},
